@@ -1,4 +1,4 @@
-CONSTANTS Tier = "t"  Emit = TRUE
+CONSTANTS Tier = "t"  Emit = TRUE  Bug = "none"
 SPECIFICATION Spec
-INVARIANT TypeOK NoFail Progress RoundTrip Bip144Iff IdLemma
+INVARIANT AllPicked TypeOK NoFail RoundTrip Bip144Iff IdLemma
 CHECK_DEADLOCK FALSE
